@@ -5,6 +5,7 @@ import (
 	"math"
 	"strings"
 	"time"
+	"unicode/utf8"
 
 	"verif/internal/drive"
 	"verif/internal/gen"
@@ -104,7 +105,8 @@ func (c11) Plan(tier string, seed int64) []mon.Workload {
 		{Name: "alias-pairs", N: int64(len(c11AliasOps) * len(c11AliasKeys) * len(c11AliasKeys) * 3), Exhaustive: true},
 		{Name: "shared-parts", N: int64(len(c11SharedBuilds) * len(c11SharedUses)), Exhaustive: true},
 		{Name: "string-edges", N: int64(len(c11EdgeOps) * len(c11EdgeVals) * 5), Exhaustive: true},
-		{Name: "read-move-op", N: int64(len(c11RMReads) * len(c11RMMoves) * len(c11RMOps) * 3), Exhaustive: true}}
+		{Name: "read-move-op", N: int64(len(c11RMReads) * len(c11RMMoves) * len(c11RMOps) * 3), Exhaustive: true},
+		{Name: "long-subjects", N: int64(len(c11LongOps) * len(c11LongSizes) * 3), Exhaustive: true}}
 }
 
 // string-edges (exhaustive): the string builtins on subjects whose ENDS are
@@ -126,6 +128,49 @@ var c11RMReads = []string{"", "x = k", "x = get_key(k)", "x = len(k)", "if k == 
 var c11RMMoves = []string{"rename(nw, k)", "drop_key(k)", "rename(nw, k)\nrename(k, o)", "rename(o, k)", "set_tag(k)", "rename(nw, k)\nrename(k, nw)", "drop_key(k)\nrename(k, o)", "k2 = 1", "rename(nw, k)\nx = nw"}
 var c11RMOps = []string{"trim(k)", "uppercase(k)", "replace(k, \"a\", \"b\")", "url_decode(k)", "cast(k, \"int\")", "cast(k, \"str\")", "cast(k, \"bool\")", "cast(k, \"float\")", "add_key(k)", "set_tag(k)",
 	"rename(z, k)", "drop_key(k)", "x = load_json(k)\np(x)", "set_measurement(k)", "strfmt(k, \"%v|%v\", k, 1)", "p(len(k), get_key(k), k)", "printf(\"%v\\n\", k)", "trim(k, \"a\")"}
+
+// long-subjects (exhaustive): every builtin of the property on a subject of
+// 255..65537 bytes (both sides of 2^8, 2^10, 2^12, 2^16) - padded with blanks,
+// with percent escapes, upper and lower case letters and multi-byte characters
+// all through - as a field, a tag and a variable.
+var c11LongSizes = []int{255, 256, 257, 1023, 1024, 1025, 4095, 4096, 4097, 65535, 65536, 65537}
+var c11LongOps = []string{"trim(k)", "trim(k, \" a\")", "uppercase(k)", "url_decode(k)", "replace(k, \"aB\", \"<>\")", "replace(k, \"(a)(B)\", \"$2$1\")", "cast(k, \"str\")", "cast(k, \"int\")", "cast(k, \"bool\")",
+	"strfmt(out, \"%s|%d\", k, len(k))", "strfmt(k, \"%v%v\", k, k)", "add_key(k2, k)", "set_tag(k)", "rename(k2, k)", "x = load_json(k)\np(x)", "set_measurement(k)", "printf(\"%s\\n\", k)", "p(len(k), get_key(k))",
+	"add_key(k)\nuppercase(k)\ntrim(k)", "set_tag(k2, k)\nreplace(k2, \"é\", \"e\")"}
+
+func c11LongSubject(i int64) c11Case {
+	where := int(i % 3)
+	i /= 3
+	n := c11LongSizes[int(i)%len(c11LongSizes)]
+	op := c11LongOps[int(i)/len(c11LongSizes)]
+	val := "  " + strings.Repeat("aB%41+cé ", n/10+1)
+	for len(val) > n-2 || !utf8.ValidString(val) {
+		val = val[:len(val)-1]
+	}
+	for len(val) < n-2 {
+		val += "x"
+	}
+	val += "  "
+	pt := ref.NewPoint("meas", map[string]string{"bt": "bystander"}, map[string]any{"b1": int64(41)}, time.Unix(1700000123, 0))
+	text := op + "\np(get_key(k), get_key(k2), get_key(out), len(k))\n"
+	switch where {
+	case 0:
+		pt.Fields["k"] = val
+	case 1:
+		pt.Tags["k"] = val
+	case 2:
+		text = "k = \"" + val + "\"\n" + text
+	}
+	o := drive.Parse("long-subjects", text)
+	if o.Err != nil {
+		panic("c11: long-subjects program does not parse: " + o.Err.Error())
+	}
+	l, err := gt.FromStmts(o.Stmts)
+	if err != nil {
+		panic(err)
+	}
+	return c11Case{Stmts: gt.CloneStmts(l), Point: pt, Cell: "long-subjects"}
+}
 
 func c11ReadMoveOp(i int64) c11Case {
 	kind := int(i % 3)
@@ -465,6 +510,10 @@ func (k c11) Describe(c *mon.Ctx, workload string, i int64) any {
 		}
 		return map[string]any{"source": gt.Print(gt.ParenthesizeStmts(cs.Stmts), nil)}
 	}
+	if workload == "long-subjects" {
+		cs := c11LongSubject(i)
+		return map[string]any{"source_head": firstN(gt.Print(gt.ParenthesizeStmts(cs.Stmts), nil), 3), "index": i}
+	}
 	if workload == "read-move-op" {
 		cs := c11ReadMoveOp(i)
 		return map[string]any{"source": gt.Print(gt.ParenthesizeStmts(cs.Stmts), nil), "point": cs.Point.Show()}
@@ -546,6 +595,11 @@ func (k c11) Run(c *mon.Ctx, workload string, i int64) {
 		if cs.Skip {
 			return
 		}
+		runBuiltinCase(c, cs.Stmts, cs.Point, cs.Cell, ref.Merge(ref.ProbeFuncs(), ref.FieldFuncs()), "c11.p")
+		return
+	}
+	if workload == "long-subjects" {
+		cs := c11LongSubject(i)
 		runBuiltinCase(c, cs.Stmts, cs.Point, cs.Cell, ref.Merge(ref.ProbeFuncs(), ref.FieldFuncs()), "c11.p")
 		return
 	}
